@@ -294,33 +294,48 @@ def run_model(exe, cases_path, timeout=1800):
 
 
 def run_impl(exe, cases_path, n, shards=None, timeout=1800, env=None):
-    """Runs the harness binary sharded over the cores; re-interleaves outputs."""
+    """Runs the harness binary sharded over the cores; re-interleaves outputs.
+    A shard that stops early (a case hung -> the harness printed HANG and exited,
+    or the process crashed -> CRASH) is restarted after the offending case."""
     shards = shards or min(NCPU, max(1, n // 200))
-    procs = []
     e = dict(os.environ)
     if env:
         e.update(env)
-    for i in range(shards):
-        procs.append(subprocess.Popen([exe, cases_path, str(i), str(shards)], stdout=subprocess.PIPE,
-                                      stderr=subprocess.DEVNULL, env=e))
-    outs = []
     deadline = time.time() + timeout
-    for p in procs:
-        try:
-            o, _ = p.communicate(timeout=max(1, deadline - time.time()))
-        except subprocess.TimeoutExpired:
-            p.kill()
-            o, _ = p.communicate()
-        outs.append((p.returncode, o.decode("utf-8", "replace").split("\n")[:-1]))
+    expected = [len(range(i, n, shards)) for i in range(shards)]
+    got = [[] for _ in range(shards)]
+    pending = list(range(shards))
+    rounds = 0
+    while pending and time.time() < deadline and rounds < 400:
+        rounds += 1
+        procs = []
+        for i in pending:
+            # outputs go to files, not pipes: a full pipe would serialise the shards
+            of = tempfile.TemporaryFile()
+            procs.append((i, of, subprocess.Popen([exe, cases_path, str(i), str(shards), str(len(got[i]))],
+                                                  stdout=of, stderr=subprocess.DEVNULL, env=e)))
+        nxt = []
+        for i, of, p in procs:
+            try:
+                p.wait(timeout=max(1, deadline - time.time()))
+            except subprocess.TimeoutExpired:
+                p.kill()
+                p.wait()
+            of.seek(0)
+            o = of.read()
+            of.close()
+            lines = o.decode("utf-8", "replace").split("\n")[:-1]
+            got[i].extend(lines)
+            if len(got[i]) < expected[i]:
+                if not lines or lines[-1] != "HANG":
+                    got[i].append("CRASH")   # died without output for this case (abort, signal, stack overflow)
+                if len(got[i]) < expected[i]:
+                    nxt.append(i)
+        pending = nxt
     res = [None] * n
-    for i, (rc, lines) in enumerate(outs):
-        idxs = list(range(i, n, shards))
-        for k, ix in enumerate(idxs):
-            if k < len(lines):
-                res[ix] = lines[k]
-            else:
-                # process died (abort / stack overflow / killed) or hung at this case
-                res[ix] = "CRASH" if k == len(lines) else "NOT-RUN"
+    for i in range(shards):
+        for k, ix in enumerate(range(i, n, shards)):
+            res[ix] = got[i][k] if k < len(got[i]) else "NOT-RUN"
     return res
 
 
